@@ -2,6 +2,12 @@
 
 K1  only session-reported lines the commit added reach a note: decided by the C04 check
     (same method, soundness half of the same oracle).
+K3  the newest statement about a file wins when the working log is folded into the attribution state
+    of a commit.  Encoded from MIR: authorship::virtual_attribution::VirtualAttributions::
+    from_just_working_log (INITIAL + every checkpoint entry, over the model file system, with the real
+    line<->char converters).  Obligation: after a person's checkpoint that leaves no AI line in a file,
+    no earlier AI entry or INITIAL claim for that file survives; otherwise the newest entry carrying
+    attribution decides.
 K2  pending attribution is discarded when the work is discarded.  Encoded from MIR:
     checkout_hooks::{remove_attributions_for_pathspecs, matches_any_pathspec},
     repo_storage::PersistedWorkingLog::{write_initial_attributions, read_initial_attributions,
@@ -59,6 +65,17 @@ def plan(tier, seed):
     rs = [t for t in tasks if t[0] == 'reset']
     for i in range(0, len(rs), B):
         out.append(('batch', {'shapes': [['reset', t[1]] for t in rs[i:i + B]]}))
+    for li in range(len(RESET_LINES)):
+        for same in (True, False):
+            for pre in (True, False):
+                out.append(('reset_hard', {'line': li, 'same': same, 'pre_resolved': pre}))
+    nent = 2 if tier == 'quick' else 3
+    for init in (False, True):
+        for n in range(0, nent + 1):
+            for combo in itertools.product(ENTRY_KINDS, repeat=n):
+                if n == 0 and not init:
+                    continue
+                out.append(('fold', {'initial': init, 'entries': list(combo)}))
     return out
 
 
@@ -66,6 +83,24 @@ def install(M):
     def working_log_for_base_commit(P, c, args, dt):
         return clone_val(P, P.state['wl'])
     M.env['git::repo_storage::RepoStorage::working_log_for_base_commit'] = working_log_for_base_commit
+
+    def head(P, c, args, dt):
+        if 'c03_head' not in P.state:
+            return err(Opaque('GitAiError', 'nohead'))
+        return ok(Opaque('Reference', P.state['c03_head']))
+
+    def ref_target(P, c, args, dt):
+        return ok(pystring(tgt(args[0]).p))
+
+    def resolve_tree_ish(P, c, args, dt):
+        return ok(pystring(P.state['c03_resolve']))
+
+    def default_author(P, c, args, dt):
+        return pystring('A U Thor <a@u>')
+    M.env['git::repository::Repository::head'] = head
+    M.env['git::repository::Reference::target'] = ref_target
+    M.env['commands::hooks::reset_hooks::resolve_tree_ish_to_commit'] = resolve_tree_ish
+    M.env['commands::hooks::commit_hooks::get_commit_default_author'] = default_author
 
 
 def mk_wl(M):
@@ -202,12 +237,158 @@ def ob_batch(h, shape):
     (ob_checkout_paths if name == 'checkout_paths' else ob_reset)(h, sh)
 
 
-OBLIGATIONS = {'batch': ob_batch, 'checkout_paths': ob_checkout_paths, 'reset': ob_reset}
+VAS = 'authorship::virtual_attribution::VirtualAttributions'
+ATTR = 'authorship::attribution_tracker::Attribution'
+REPO = 'git::repository::Repository'
+
+
+def mk_repo(M, workdir='/w'):
+    from mirsym.models.paths import mk_pathbuf
+    pb = lambda x: mk_pathbuf(list(x.encode()))
+    st = mk_struct(M, 'git::repo_storage::RepoStorage', ai_dir=pb(workdir + '/.git/ai'), repo_workdir=pb(workdir), working_logs=pb(workdir + '/.git/ai/working_logs'),
+                   rewrite_log=pb(workdir + '/.git/ai/rewrite_log'), logs=pb(workdir + '/.git/ai/logs'))
+    return mk_struct(M, REPO, global_args=VecV([]), git_dir=pb(workdir + '/.git'), git_common_dir=pb(workdir + '/.git'),
+                     storage=st, pre_command_base_commit=none(), pre_command_refname=none(), pre_reset_target_commit=none(),
+                     workdir=pb(workdir), canonical_workdir=pb(workdir))
+
+
+ENTRY_KINDS = ['ai', 'human_all', 'no_data', 'ai_chars_only']
+
+
+def ob_fold(h, shape):
+    """shape: {'initial': bool, 'entries': [kind, ...]} for one file f of 3 lines"""
+    P = h.P
+    M = P.M
+    wl = mk_wl(M)
+    P.state['wl'] = wl
+    content = list(b'l1\nl2\nl3\n')
+    P.state['fs'] = {'/wl': 'DIR', '/w/f': StringV(list(content))}
+    stats = Agg(STATS, [Sc(0, 32) for _ in M.src.struct_fields(STATS)])
+    lines = {}
+    if shape['initial']:
+        s0 = h.u32('i_s', 1, 3)
+        e0 = h.u32('i_e', 1, 3)
+        P.assume(binop('Le', s0, e0))
+        lines['initial'] = (s0, e0)
+        files = MapV('hash', [[pystring('f'), VecV([mk_struct(M, LATTR, start_line=s0, end_line=e0, author_id=pystring('s0'), overrode=none())])]], 'map')
+        r = P.call_named(PWL + '::write_initial_attributions', [Ref(Cell(wl)), files, MapV('hash', [], 'map')])
+        if r.var != 'Ok':
+            raise Unsupported('seeding INITIAL failed')
+    cks = []
+    for i, kind in enumerate(shape['entries']):
+        la = []
+        at = []
+        if kind in ('ai', 'ai_chars_only'):
+            s_ = h.u32('e%d_s' % i, 1, 3)
+            e_ = h.u32('e%d_e' % i, 1, 3)
+            P.assume(binop('Le', s_, e_))
+            lines[i] = (s_, e_)
+            if kind == 'ai':
+                la = [mk_struct(M, LATTR, start_line=s_, end_line=e_, author_id=pystring('s%d' % (i + 1)), overrode=none())]
+                at = [mk_struct(M, ATTR, start=usize(0), end=usize(len(content)), author_id=pystring('s%d' % (i + 1)), ts=Sc(i, 128))]
+            else:
+                # older checkpoint data: character ranges only (whole lines s_..e_)
+                cs = Sc(z3.ZeroExt(32, (s_.v - 1) * 3), 64)
+                ce = Sc(z3.ZeroExt(32, e_.v * 3), 64)
+                at = [mk_struct(M, ATTR, start=cs, end=ce, author_id=pystring('s%d' % (i + 1)), ts=Sc(i, 128))]
+        elif kind == 'human_all':
+            at = [mk_struct(M, ATTR, start=usize(0), end=usize(len(content)), author_id=pystring('human'), ts=Sc(i, 128))]
+        entry = mk_struct(M, WLE, file=pystring('f'), blob_sha=pystring('b%d' % i), attributions=VecV(at), line_attributions=VecV(la))
+        ck_kind = 'Human' if kind in ('human_all', 'no_data') else 'AiAgent'
+        cks.append(mk_struct(M, CKPT, kind=mk_enum(M, KIND, ck_kind), diff=pystring('d'), author=pystring('x'), entries=VecV([entry]),
+                             timestamp=Sc(i, 64), transcript=none(), agent_id=none(), agent_metadata=none(), line_stats=stats,
+                             api_version=pystring('checkpoint/1.0.0'), git_ai_version=none()))
+    v = VecV(cks)
+    r = P.call_named(PWL + '::write_all_checkpoints', [Ref(Cell(wl)), SliceRef(v, 0, len(cks))])
+    if r.var != 'Ok':
+        raise Unsupported('seeding checkpoints failed')
+    h.inputs_struct = {'initial': list(lines['initial']) if 'initial' in lines else None,
+                       'entries': [{'kind': k, 'lines': list(lines[i]) if i in lines else None} for i, k in enumerate(shape['entries'])]}
+    repo = mk_repo(M)
+    try:
+        r = P.call_named(VAS + '::from_just_working_log', [repo, pystring('head'), none()])
+    except Panic as e:
+        h.panic('K3-no-panic', e.msg)
+        return
+    h.require(r.var == 'Ok', 'K3-fold-ok', 'from_just_working_log failed on a healthy working log')
+    if r.var != 'Ok':
+        return
+    va = r.f[0]
+    got = None
+    for ent in field(M, va, VAS, 'attributions').ent:
+        if bytes(concrete_bytes(as_bytes(ent[0]))) == b'f':
+            got = [(bytes(concrete_bytes(as_bytes(field(M, la, LATTR, 'author_id')))).decode(), field(M, la, LATTR, 'start_line'), field(M, la, LATTR, 'end_line')) for la in ent[1].f[1].e]
+    # reference: the newest statement wins
+    want = None
+    if 'initial' in lines:
+        want = ('s0',) + lines['initial']
+    for i, kind in enumerate(shape['entries']):
+        if kind in ('ai', 'ai_chars_only'):
+            want = ('s%d' % (i + 1),) + lines[i]
+        elif kind == 'human_all':
+            want = None
+    if want is None:
+        ai = [g for g in (got or []) if g[0] != 'human']
+        h.require(not ai, 'K3-human-rewrite-clears-earlier-AI-claims',
+                  'the newest entry for the file leaves no AI line, yet the folded state attributes lines to %r' % sorted({g[0] for g in ai}))
+    else:
+        okk = got is not None and len(got) >= 1 and all(g[0] == want[0] for g in got)
+        h.require(okk, 'K3-newest-entry-decides-the-session', 'folded state %r, newest statement is by %s' % ([g[0] for g in (got or [])], want[0]))
+        if okk:
+            # the lines covered are exactly want's lines
+            l = h.u32('l', 1, 3)
+            inw = z3.And(z3.UGE(l.v, want[1].v), z3.ULE(l.v, want[2].v))
+            ing = z3.Or([z3.And(z3.UGE(l.v, g[1].v), z3.ULE(l.v, g[2].v)) for g in got])
+            h.require(inw == ing, 'K3-newest-entry-decides-the-lines', 'a line is attributed differently from the newest statement')
+    h.sample = h.witness()
+
+
+RESET_LINES = [['--hard'], ['--hard', 'HEAD'], ['--hard', 'HEAD~1'], ['--hard', 'abc123'], ['-q', '--hard'], ['--hard', '-q', 'HEAD']]
+
+
+def ob_reset_hard(h, shape):
+    """`git reset --hard [<target>]` succeeded: the working log of the old HEAD is gone, whatever the
+    target resolves to (HEAD itself included: the work is discarded all the same)"""
+    P = h.P
+    M = P.M
+    argv = ['reset'] + RESET_LINES[shape['line']]
+    old = 'oldhead'
+    target = old if shape['same'] else 'other'
+    repo = mk_repo(M)
+    fields = M.src.struct_fields(REPO)
+    repo.f[fields.index('pre_command_base_commit')] = some(pystring(old))
+    repo.f[fields.index('pre_reset_target_commit')] = some(pystring(target)) if shape['pre_resolved'] else none()
+    wl_dir = '/w/.git/ai/working_logs/' + old
+    other_dir = '/w/.git/ai/working_logs/unrelated'
+    P.state['fs'] = {wl_dir + '/INITIAL': pystring('{"files":{},"prompts":{}}'), wl_dir + '/checkpoints.jsonl': pystring('x'),
+                     wl_dir + '/blobs/b0': pystring('y'), other_dir + '/checkpoints.jsonl': pystring('z')}
+    P.state['c03_head'] = target
+    P.state['c03_resolve'] = target
+    h.inputs_struct = {'argv': argv, 'same': shape['same'], 'pre_resolved': shape['pre_resolved']}
+    parsed = P.call_named('git::cli_parser::parse_git_cli_args', [SliceRef(VecV([pystring(x) for x in argv]), 0, len(argv))])
+    status = Opaque('ExitStatus', {'code': some(Sc(0, 32, True)), 'signal': none()})
+    try:
+        P.call_named('commands::hooks::reset_hooks::post_reset_hook', [Ref(Cell(parsed)), Ref(Cell(repo)), status])
+    except Panic as e:
+        h.panic('K2-reset-hard-no-panic', e.msg)
+        return
+    fs = P.state['fs']
+    left = sorted(k for k in fs if k == wl_dir or k.startswith(wl_dir + '/'))
+    h.require(not left, 'K2-hard-reset-discards-pending-attribution', 'after `git %s` the working log of the old HEAD still holds %r' % (' '.join(argv), left))
+    h.require(any(k.startswith(other_dir + '/') for k in fs), 'K2-hard-reset-leaves-other-working-logs', 'another base commit\'s working log was removed')
+    h.sample = h.witness()
+
+
+OBLIGATIONS = {'batch': ob_batch, 'checkout_paths': ob_checkout_paths, 'reset': ob_reset, 'fold': ob_fold, 'reset_hard': ob_reset_hard}
 
 
 def replay(v, native):
     inp = v['inputs']
-    if 'pathspecs' in inp:
+    if 'argv' in inp:
+        r = native('c03_reset_hard', inp)
+    elif 'entries' in inp:
+        r = native('c03_fold', inp)
+    elif 'pathspecs' in inp:
         r = native('c03_checkout_paths', inp)
     else:
         r = native('c03_reset', inp)
